@@ -13,7 +13,7 @@ def run(p):
         env = dict(os.environ, VERIF_EVIDENCE_DIR=t + '/ev', VERIF_QUIET='1')
         r = subprocess.run(['/venv/bin/python', '/verif/sa/check.py', prop, '--repo', t], capture_output=True, text=True, env=env)
         out = '\n'.join(l for l in (r.stdout + r.stderr).splitlines() if 'condarc' not in l and not l.startswith('OK '))
-        kind = 'FA' if 'VIOLATION' in out else 'E2' if 'ANALYSIS-ERROR' in out else 'ok'
+        kind = 'FA' if 'VIOLATION' in out else 'E2' if ('ANALYSIS-ERROR' in out or r.returncode != 0) else 'ok'
         lines = [l for l in out.splitlines() if 'rule=' in l or 'ANALYSIS-ERROR' in l or 'Traceback' in l or 'Error' in l]
         return name, kind, '\n      '.join(x[:300] for x in lines[:4])
     finally:
